@@ -470,6 +470,11 @@ func runDiff(byName map[string]*opDef, seq []string) (res diffResult) {
 	return
 }
 
+// canonical witnesses of the classified differences
+var witnesses = map[string][]string{
+	"readcount-writecount-not-implemented-by-server": {"Transaction(update)", "T.Query(data sort k)", "Q.Get(+)", "T.ReadCount"},
+}
+
 // prefixes open the handles the deeper operations need.
 var prefixes = [][]string{
 	{},
@@ -501,7 +506,23 @@ func seqdiff(c *lib.Ctx) {
 	c.Set("seqdiff_alphabet_size", len(names))
 	c.Set("seqdiff_depth_on_top_of_prefix", depth)
 	c.Set("seqdiff_prefixes", prefixes)
-	reported := map[string]bool{}
+	// A classified (known) difference occurs in hundreds of sequences and in
+	// every worker shard: its canonical witness is run first by every shard and
+	// reported by shard 0; other occurrences are only counted, unless the
+	// witness did not show the difference.
+	witnessFails := map[string]bool{}
+	for class, w := range witnesses {
+		o := runDiff(byName, w)
+		for _, f := range o.fails {
+			if f.class == class {
+				witnessFails[class] = true
+				if c.Shard == 0 {
+					c.Fail(class, diffCase{Seq: w}, "sequence %s: %s", strings.Join(w, " ; "), f.msg)
+				}
+				break
+			}
+		}
+	}
 	var dfs func(seq []string, extra int)
 	dfs = func(seq []string, extra int) {
 		if c.Expired() {
@@ -523,11 +544,9 @@ func seqdiff(c *lib.Ctx) {
 		for _, f := range o.fails {
 			if f.class != "" {
 				c.Count("class:"+f.class, 1)
-				// one representative per class and worker shard 0 (all are counted)
-				if reported[f.class] || c.Shard != 0 {
+				if witnessFails[f.class] {
 					continue
 				}
-				reported[f.class] = true
 			}
 			c.Fail(f.class, diffCase{Seq: seq}, "sequence %s: %s", strings.Join(seq, " ; "), f.msg)
 		}
